@@ -1,5 +1,5 @@
 (** Extraction of the executable model.  ExtrOcamlBasic only: bool, option, list, prod, unit,
     sumbool map to OCaml natives; N, positive, nat, string, ascii stay the extracted inductives. *)
 From Coq Require Import ExtrOcamlBasic.
-From RS Require Import Base.Bytes Base.Outcome Interp.Run Pkt.Csum Spec.Wire Spec.PcapRead Spec.Reasm4.
-Extraction "rsmodel.ml" run csum_partial csum_fold ipv4_ok tcp_ok udp_len_ok udp_csum_ok icmp_ok verifies pcap_read reassemble fragment_of.
+From RS Require Import Base.Bytes Base.Outcome Interp.Run Pkt.Csum Spec.Wire Spec.PcapRead Spec.Reasm4 Spec.Tunnel.
+Extraction "rsmodel.ml" run csum_partial csum_fold ipv4_ok tcp_ok udp_len_ok udp_csum_ok icmp_ok verifies pcap_read reassemble fragment_of vxlan_decode gre_decode erspan2_decode.
